@@ -152,6 +152,12 @@ class ListMapModel(Model):
             for a, b in (("l1", "l2"), ("l2", "l1"), ("a1", "l2")):
                 if st[a] is not st[b] and len(st[a].items) + len(st[b].items) <= CAP:
                     out.append(("join", a, b))
+            # the RESULT of join is the receiver itself (not a copy): bound to a name it is one more alias; a call chained onto it works on the receiver
+            if st["l1"] is not st["l2"] and len(st["l1"].items) + len(st["l2"].items) <= CAP:
+                out.append(("joinret", "a1", "l1", "l2"))
+                out.append(("joinret", "l2", "l1", "l2"))
+                if len(st["l1"].items) + len(st["l2"].items) < CAP:
+                    out.append(("joinchain", "l1", "l2", 2))
         elif tpl == "strs":
             lst = st["s1"]
             n = len(lst.items)
@@ -283,6 +289,12 @@ class ListMapModel(Model):
             st[op[1]] = st[op[2]]
         elif k == "join":
             st[op[1]].items.extend(st[op[2]].items)
+        elif k == "joinret":
+            st[op[2]].items.extend(st[op[3]].items)
+            st[op[1]] = st[op[2]]
+        elif k == "joinchain":
+            st[op[1]].items.extend(st[op[2]].items)
+            st[op[1]].items.append(op[3])
         elif k == "map":
             if tpl == "ints":
                 obs.append(show(L([x + 1 for x in st[op[1]].items])))
@@ -420,6 +432,10 @@ class ListMapModel(Model):
             s = f"{op[1]} = {op[2]}\n"
         elif k == "join":
             s = f"{op[1]}.join({op[2]})\n"
+        elif k == "joinret":
+            s = f"{op[1]} = {op[2]}.join({op[3]})\n"
+        elif k == "joinchain":
+            s = f"{op[1]}.join({op[2]}).push({lit(op[3])})\n"
         elif k == "map":
             s = f"print {op[1]}.map({'inc' if tpl == 'ints' else 'up'})\n"
         elif k == "filter":
@@ -594,7 +610,7 @@ class C13(EHistCheck):
     thorough_cap_s = 40 * 60
     rule = ("breadth-first search over operation histories on five container templates (int lists with an alias and an independent list; "
             "string lists; lists of optionals; nested lists with an aliased inner list; maps with an alias and an independent map); alphabet: "
-            "push, remove / read / index assignment / op-assignment at indices {-1, 0, len-1, len}, reverse, clear, clone, re-aliasing, join, "
+            "push, remove / read / index assignment / op-assignment at indices {-1, 0, len-1, len}, reverse, clear, clone, re-aliasing, join (as a statement, with its result bound to a name, with a call chained onto its result), "
             "map, filter, index_of, len, ==, to_str concatenation; maps: literal, read, index assignment, op-assignment, replace, remove, "
             "contains_key, len, keys, values, pairs, clear, clone; a sixth template TRANSFERS values between a list, a second list and a map by every form there is (map literal, list literal, "
             "index assignment, push, replace, map() with the identity, through a function that returns an element, out of a map entry into a list) and then writes the slot they came from.  Values in {0,1,2}, list length capped at 3 by the alphabet.  States are "
